@@ -283,6 +283,12 @@ impl<R: BufRead> Position for ReadPos<R> {
     }
 }
 
+/// Maximum nesting depth of embedded messages.
+///
+/// Decoding is recursive, so this protects against stack overflow. The value
+/// matches the default recursion limit of the official implementations.
+const MAX_MESSAGE_DEPTH: u32 = 100;
+
 /// Wraps a [`ReadValue`] to limit the maximum offset in the stream that can
 /// be read up to.
 ///
@@ -290,6 +296,9 @@ impl<R: BufRead> Position for ReadPos<R> {
 pub(crate) struct LimitReader<'a, R: ReadValue> {
     inner: &'a mut R,
     end: u64,
+
+    /// Nesting depth of the message being read.
+    depth: u32,
 }
 
 impl<'a, R: ReadValue> LimitReader<'a, R> {
@@ -299,6 +308,7 @@ impl<'a, R: ReadValue> LimitReader<'a, R> {
         Self {
             end: end.min(inner.end_position().unwrap_or(u64::MAX)),
             inner,
+            depth: 0,
         }
     }
 
@@ -307,7 +317,20 @@ impl<'a, R: ReadValue> LimitReader<'a, R> {
         LimitReader {
             end: self.inner.position().saturating_add(len).min(self.end),
             inner: self.inner,
+            depth: self.depth,
         }
+    }
+
+    /// Create a sub-reader for an embedded message of `len` bytes.
+    ///
+    /// Returns `None` if the message is nested too deeply.
+    pub fn sub_message(&mut self, len: u64) -> Option<LimitReader<'_, R>> {
+        if self.depth >= MAX_MESSAGE_DEPTH {
+            return None;
+        }
+        let mut reader = self.sub_limit(len);
+        reader.depth += 1;
+        Some(reader)
     }
 
     fn check_has_bytes(&self, len: usize) -> Result<(), ProtobufError> {
